@@ -282,6 +282,10 @@ func replayStmt(args []string) error {
 	fs.Parse(args)
 	rng := rand.New(rand.NewSource(*seed))
 	dict := identDict(rng, 5)
+	if *seed%2 == 1 {
+		// argument strings whose blank-joined renderings coincide: ("x y","z") vs ("x","y z")
+		dict = vx.NewDict([]string{"Zed", "a", "b1", "c_x"}, []string{"x", "x y", "y z", "z", "zz"})
+	}
 	dir := vx.Scratch("replaystmt")
 	defer os.RemoveAll(dir)
 	rep := &vx.Report{}
@@ -349,6 +353,35 @@ func replayStmt(args []string) error {
 			if !allowed(got, outs, ln.GB) && !(got.Err && len(c.Args) != maxPh(ln.Tmpl)) {
 				rep.Mismatch(map[string]any{"kind": "stmt-prepared", "query": text, "execution": k + 1, "args": c.Args, "got": got, "allowed": outs})
 				break
+			}
+		}
+		// every ordered pair of exact-length argument lists, executed back to back
+		if mp := maxPh(ln.Tmpl); mp >= 1 && mp <= 2 {
+			var exact []int
+			for ci, c := range ln.Cases {
+				if len(c.Args) == mp {
+					exact = append(exact, ci)
+				}
+			}
+		pairs:
+			for _, i := range exact {
+				for _, j := range exact {
+					for _, ci := range []int{i, j} {
+						c := ln.Cases[ci]
+						rep.Steps++
+						var got sqlRows
+						if p := vx.Safely(func() {
+							rows, err := stmt.Query(argVals(c.Args, false)...)
+							got = collect(rows, err)
+						}); p != nil {
+							got = sqlRows{Panic: p.Value}
+						}
+						if !allowed(got, c.Outs, ln.GB) {
+							rep.Mismatch(map[string]any{"kind": "stmt-prepared-pair", "query": text, "first": ln.Cases[i].Args, "second": ln.Cases[j].Args, "args": c.Args, "got": got, "allowed": c.Outs})
+							break pairs
+						}
+					}
+				}
 			}
 		}
 		stmt.Close()
